@@ -400,6 +400,20 @@ def run(ctx):
             else:
                 r.ok(key, "all-continue ⇒ no unexplained %s" % txt, fn=g)
 
+    with ctx.rule("C03.ROLL", "context retention across a buffer refill (shared with C02.ROLL)", floor=2, kind="FLOW") as r:
+        f = facts.fn(CORE + "::roll")
+        eb = ExprBuilder(f)
+        pc = f.calls_to("grep_searcher::lines::preceding")
+        if pc and is_call(strip(eb.operand(pc[0].args[2])), SCFG + "::max_context"):
+            r.ok("retain", "retained lines = preceding(buf, term, config.max_context())", fn=f)
+        else:
+            r.bad("retain", "roll no longer retains config.max_context() trailing lines: a context line or a group separator can be lost "
+                  "where the buffer is refilled", fn=f, construct="retain")
+        ret = eb.local(0)
+        if mentions_call(ret, "core::cmp::max") and mentions_field(ret, CORE, "last_line_visited"):
+            r.ok("consumed", "never consumes past the last delivered line: max(context start, last_line_visited)", fn=f)
+        else:
+            r.bad("consumed", "roll's consumed amount no longer respects last_line_visited", fn=f, construct="consumed")
     with ctx.rule("C03.WINDOW", "before-context starts at the last visited line; after-context stops when none is owed", floor=2,
                   kind="FLOW/A3") as r:
         f = facts.fn(CORE + "::before_context_by_line")
